@@ -1,0 +1,419 @@
+//go:build verif
+
+// Contracts for the verifier in /verif (comment-only file; compiled only with -tags verif).
+// Leaf functions of properties C30 (PRNG), C04 (GREASE values), C05 (padding), C24 (QUIC
+// transport parameters).
+
+package tls
+
+// ---------------------------------------------------------------------------------------------
+// C05: AlwaysPadToLen and its closure (same shape as BoringPaddingStyle, target length padToLen).
+
+//@ func AlwaysPadToLen$1
+//@   property C05
+//@   let T = *padToLen
+//@   requires cell: padToLen != nil
+//@   note padToLen is the closure cell of the captured variable (a *int in go/ssa); cells are created by `new` in AlwaysPadToLen and are never nil
+//@   pure
+//@   ensures inrange: unpaddedLen < T ==> ret1
+//@   ensures padto: unpaddedLen < T && T - unpaddedLen >= 5 ==> ret0 == T - unpaddedLen - 4
+//@   ensures pad1: unpaddedLen < T && T - unpaddedLen < 5 ==> ret0 == 1
+//@   ensures outside: !(unpaddedLen < T) ==> ret0 == 0 && !ret1
+//@   ensures total: ret1 && T - unpaddedLen >= 5 ==> unpaddedLen + 4 + ret0 == T
+//@   ensures positive: ret1 ==> ret0 >= 1
+
+//@ func AlwaysPadToLen
+//@   property C05
+//@   modifies nothing
+//@   ensures ret != nil
+
+// ---------------------------------------------------------------------------------------------
+// C04: GREASE values are taken from the reserved spaces.
+
+//@ spec grease16(v) = v % 16 == 10 && (v / 256) % 16 == 10 && v / 256 == v % 256
+
+//@ spec gcase(s, k, r) = (s / 16) % 16 == k ==> r == 2570 + 4112 * k
+
+//@ func GetBoringGREASEValue
+//@   property C04
+//@   pure
+//@   requires inrange: 0 <= index && index < 5
+//@   note outside 0..4 the array index panics at run time (a runtime panic, which `panics when` does not cover); ssl_grease_ticket_extension == 5 is such an index
+//@   note the result is determined by bits 4..7 of the seed word: one clause per nibble value (each is a constant evaluation; the general statement is slow because ret |= ret << 8 is encoded bit by bit)
+//@   ensures k0: gcase(greaseSeed[index], 0, ret)
+//@   ensures k1: gcase(greaseSeed[index], 1, ret)
+//@   ensures k2: gcase(greaseSeed[index], 2, ret)
+//@   ensures k3: gcase(greaseSeed[index], 3, ret)
+//@   ensures k4: gcase(greaseSeed[index], 4, ret)
+//@   ensures k5: gcase(greaseSeed[index], 5, ret)
+//@   ensures k6: gcase(greaseSeed[index], 6, ret)
+//@   ensures k7: gcase(greaseSeed[index], 7, ret)
+//@   ensures k8: gcase(greaseSeed[index], 8, ret)
+//@   ensures k9: gcase(greaseSeed[index], 9, ret)
+//@   ensures k10: gcase(greaseSeed[index], 10, ret)
+//@   ensures k11: gcase(greaseSeed[index], 11, ret)
+//@   ensures k12: gcase(greaseSeed[index], 12, ret)
+//@   ensures k13: gcase(greaseSeed[index], 13, ret)
+//@   ensures k14: gcase(greaseSeed[index], 14, ret)
+//@   ensures k15: gcase(greaseSeed[index], 15, ret)
+//@   ensures grease: grease16(ret)
+//@   ensures range: 0x0a0a <= ret && ret <= 0xfafa
+
+//@ func isGREASEUint16
+//@   property C04
+//@   pure
+//@   ensures iff: ret <==> grease16(v)
+
+//@ func unGREASEUint16
+//@   property C04
+//@   pure
+//@   ensures grease: grease16(v) ==> ret == 0x0a0a
+//@   ensures other: !grease16(v) ==> ret == v
+//@   ensures idem: grease16(ret) <==> ret == 0x0a0a
+
+// ---------------------------------------------------------------------------------------------
+// C30: range claims of the PRNG helpers. The stream position of p.rand (a *math/rand.Rand whose
+// Source is p itself) is the ghost state ghost(randpos, p.rand); see /verif/contracts/trusted/rand.vc.
+// p.rand != nil and p.randomStream != nil are the data-structure invariant established by
+// newPRNGWithSeed (the only constructor).
+
+//@ func (*prng).Intn
+//@   property C30
+//@   requires p != nil && p.rand != nil
+//@   modifies ghost(randpos, p.rand)
+//@   ensures zero: n <= 0 ==> ret == 0
+//@   ensures range: n > 0 ==> 0 <= ret && ret < n
+//@   ensures nodraw: n <= 0 ==> ghost(randpos, p.rand) == old(ghost(randpos, p.rand))
+
+//@ func (*prng).Int63n
+//@   property C30
+//@   requires p != nil && p.rand != nil
+//@   modifies ghost(randpos, p.rand)
+//@   ensures zero: n <= 0 ==> ret == 0
+//@   ensures range: n > 0 ==> 0 <= ret && ret < n
+//@   ensures nodraw: n <= 0 ==> ghost(randpos, p.rand) == old(ghost(randpos, p.rand))
+
+//@ func (*prng).Perm
+//@   property C30
+//@   requires p != nil && p.rand != nil
+//@   panics when n < 0
+//@   modifies ghost(randpos, p.rand)
+//@   ensures len: len(ret) == n
+//@   ensures elems: forall j in 0..n: 0 <= ret[j] && ret[j] < n
+//@   ensures distinct: forall j in 0..n: forall k in 0..n: j != k ==> ret[j] != ret[k]
+
+//@ func (*prng).Range
+//@   property C30
+//@   let lo = ite(min < 0, 0, min)
+//@   requires p != nil && p.rand != nil
+//@   requires nowrap: !(min <= 0 && max == 9223372036854775807)
+//@   note outside nowrap (min <= 0, max == MaxInt64) max-min+1 wraps to MinInt64, Intn returns 0 and Range returns 0: still inside [0, max] but constant
+//@   check overflow
+//@   modifies ghost(randpos, p.rand)
+//@   ensures lower: ret >= lo
+//@   ensures upper: max >= lo ==> ret <= max
+//@   ensures clamped: max < lo ==> ret == lo
+//@   ensures nodraw: max < lo ==> ghost(randpos, p.rand) == old(ghost(randpos, p.rand))
+
+//@ func (*prng).Read
+//@   property C30
+//@   requires p != nil && p.randomStream != nil
+//@   modifies b[0..len(b)], ghost(rdpos, p.randomStream)
+//@   ensures full: ret0 == len(b) && ret1 == nil
+
+//@ func (*prng).Uint64
+//@   property C30
+//@   requires p != nil && p.randomStream != nil
+//@   modifies ghost(rdpos, p.randomStream)
+//@   ensures range: 0 <= ret && ret <= 18446744073709551615
+
+//@ func (*prng).Int63
+//@   property C30
+//@   requires p != nil && p.randomStream != nil
+//@   modifies ghost(rdpos, p.randomStream)
+//@   ensures range: 0 <= ret && ret <= 9223372036854775807
+//@   ensures low63: ret == callres(Uint64, 0) % 9223372036854775808
+
+//@ func (*prng).FlipWeightedCoin
+//@   property C30
+//@   requires p != nil && p.randomStream != nil
+//@   modifies ghost(rdpos, p.randomStream)
+//@   ensures never: weight <= 0.0 ==> !ret
+//@   ensures always: weight >= 1.0 ==> (ret <==> callres(Int63, 0) != 0)
+//@   note always: with weight >= 1 the coin is false exactly when the 63-bit draw is 0 (probability 2^-63 for a uniform draw)
+
+// ---------------------------------------------------------------------------------------------
+// C04: QUIC GREASE transport parameter ids (31*N+27) and GREASE versions (0x?a?a?a?a).
+// The value of a *big.Int is ghost(bigval, x) (see /verif/contracts/trusted/rand.vc).
+
+//@ spec greaseid(x) = x >= 27 && (x - 27) % 31 == 0
+//@ spec varint62(x) = 0 <= x && x <= 4611686018427387903
+
+//@ func GREASETransportParameter.IsGREASEID
+//@   property C04
+//@   pure
+//@   ensures iff: ret <==> greaseid(id)
+
+//@ func GREASETransportParameter.GetGREASEID
+//@   property C04
+//@   modifies nothing
+//@   ensures grease: greaseid(ret)
+//@   ensures fits: varint62(ret)
+
+//@ func (*GREASETransportParameter).ID
+//@   property C04 C24
+//@   requires g != nil
+//@   modifies g.IdOverride
+//@   ensures grease: greaseid(ret)
+//@   ensures fits: greaseid(old(g.IdOverride)) && varint62(old(g.IdOverride)) || !greaseid(old(g.IdOverride)) ==> varint62(ret)
+//@   ensures stored: ret == g.IdOverride
+//@   ensures keep: greaseid(old(g.IdOverride)) ==> ret == old(g.IdOverride)
+
+//@ spec greasever(v) = (v % 256) % 16 == 10 && ((v / 256) % 256) % 16 == 10 && ((v / 65536) % 256) % 16 == 10 && (v / 16777216) % 16 == 10
+
+//@ func (*VersionInformation).GetGREASEVersion
+//@   property C04
+//@   modifies nothing
+//@   note what the code does guarantee (bits 1 and 3 of every byte set, i.e. low nibbles a, b, e or f) is out of the solvers' reach in integer mode (only z3 4.8 proves the lowest byte, 37 s for the second)
+//@   ensures atleast: ret >= 0x0a0a0a0a
+//@   ensures C04_VIOLATED_version_nibbles: greasever(ret)
+//@   note C04_VIOLATED_version_nibbles is refuted: the code ORs 0x0a0a0a0a into a random word without masking with 0xfafafafa, so low nibbles b, e, f occur (randVal = 1 gives 0x0a0a0a0b)
+
+// ---------------------------------------------------------------------------------------------
+// C24: ID() and Value() of every QUIC transport parameter type.
+// Integer-valued parameters: Value() is the minimal QUIC varint encoding of the integer (vlen and
+// the byte layout are those of the verified quicvarint.Append); it panics above 2^62-1.
+
+//@ spec isvarint(r, x) = len(r) == vlen(x) && r[0] / 64 == tagbits(vlen(x)) && (vlen(x) == 1 ==> r[0] == x) && (vlen(x) == 2 ==> (r[0] % 64) * 256 + r[1] == x) && (vlen(x) == 4 ==> (r[0] % 64) * 16777216 + r[1] * 65536 + r[2] * 256 + r[3] == x)
+//@ spec isvarint8(r, x) = vlen(x) == 8 ==> r[0] == 192 + x / 72057594037927936 && r[1] == (x / 281474976710656) % 256 && r[2] == (x / 1099511627776) % 256 && r[3] == (x / 4294967296) % 256 && r[4] == (x / 16777216) % 256 && r[5] == (x / 65536) % 256 && r[6] == (x / 256) % 256 && r[7] == x % 256
+
+//@ func MaxIdleTimeout.ID
+//@   property C24
+//@   pure
+//@   ensures id: ret == 0x1
+
+//@ func MaxIdleTimeout.Value
+//@   property C24
+//@   panics when m > 4611686018427387903
+//@   modifies nothing
+//@   ensures fresh: fresh(ret)
+//@   ensures varint: isvarint(ret, m)
+//@   ensures varint8: isvarint8(ret, m)
+
+//@ func MaxUDPPayloadSize.ID
+//@   property C24
+//@   pure
+//@   ensures id: ret == 0x3
+
+//@ func MaxUDPPayloadSize.Value
+//@   property C24
+//@   panics when m > 4611686018427387903
+//@   modifies nothing
+//@   ensures fresh: fresh(ret)
+//@   ensures varint: isvarint(ret, m)
+//@   ensures varint8: isvarint8(ret, m)
+
+//@ func InitialMaxData.ID
+//@   property C24
+//@   pure
+//@   ensures id: ret == 0x4
+
+//@ func InitialMaxData.Value
+//@   property C24
+//@   panics when i > 4611686018427387903
+//@   modifies nothing
+//@   ensures fresh: fresh(ret)
+//@   ensures varint: isvarint(ret, i)
+//@   ensures varint8: isvarint8(ret, i)
+
+//@ func InitialMaxStreamDataBidiLocal.ID
+//@   property C24
+//@   pure
+//@   ensures id: ret == 0x5
+
+//@ func InitialMaxStreamDataBidiLocal.Value
+//@   property C24
+//@   panics when i > 4611686018427387903
+//@   modifies nothing
+//@   ensures fresh: fresh(ret)
+//@   ensures varint: isvarint(ret, i)
+//@   ensures varint8: isvarint8(ret, i)
+
+//@ func InitialMaxStreamDataBidiRemote.ID
+//@   property C24
+//@   pure
+//@   ensures id: ret == 0x6
+
+//@ func InitialMaxStreamDataBidiRemote.Value
+//@   property C24
+//@   panics when i > 4611686018427387903
+//@   modifies nothing
+//@   ensures fresh: fresh(ret)
+//@   ensures varint: isvarint(ret, i)
+//@   ensures varint8: isvarint8(ret, i)
+
+//@ func InitialMaxStreamDataUni.ID
+//@   property C24
+//@   pure
+//@   ensures id: ret == 0x7
+
+//@ func InitialMaxStreamDataUni.Value
+//@   property C24
+//@   panics when i > 4611686018427387903
+//@   modifies nothing
+//@   ensures fresh: fresh(ret)
+//@   ensures varint: isvarint(ret, i)
+//@   ensures varint8: isvarint8(ret, i)
+
+//@ func InitialMaxStreamsBidi.ID
+//@   property C24
+//@   pure
+//@   ensures id: ret == 0x8
+
+//@ func InitialMaxStreamsBidi.Value
+//@   property C24
+//@   panics when i > 4611686018427387903
+//@   modifies nothing
+//@   ensures fresh: fresh(ret)
+//@   ensures varint: isvarint(ret, i)
+//@   ensures varint8: isvarint8(ret, i)
+
+//@ func InitialMaxStreamsUni.ID
+//@   property C24
+//@   pure
+//@   ensures id: ret == 0x9
+
+//@ func InitialMaxStreamsUni.Value
+//@   property C24
+//@   panics when i > 4611686018427387903
+//@   modifies nothing
+//@   ensures fresh: fresh(ret)
+//@   ensures varint: isvarint(ret, i)
+//@   ensures varint8: isvarint8(ret, i)
+
+//@ func MaxAckDelay.ID
+//@   property C24
+//@   pure
+//@   ensures id: ret == 0xb
+
+//@ func MaxAckDelay.Value
+//@   property C24
+//@   panics when m > 4611686018427387903
+//@   modifies nothing
+//@   ensures fresh: fresh(ret)
+//@   ensures varint: isvarint(ret, m)
+//@   ensures varint8: isvarint8(ret, m)
+
+//@ func ActiveConnectionIDLimit.ID
+//@   property C24
+//@   pure
+//@   ensures id: ret == 0xe
+
+//@ func ActiveConnectionIDLimit.Value
+//@   property C24
+//@   panics when a > 4611686018427387903
+//@   modifies nothing
+//@   ensures fresh: fresh(ret)
+//@   ensures varint: isvarint(ret, a)
+//@   ensures varint8: isvarint8(ret, a)
+
+//@ func MaxDatagramFrameSize.ID
+//@   property C24
+//@   pure
+//@   ensures id: ret == 0x20
+
+//@ func MaxDatagramFrameSize.Value
+//@   property C24
+//@   panics when m > 4611686018427387903
+//@   modifies nothing
+//@   ensures fresh: fresh(ret)
+//@   ensures varint: isvarint(ret, m)
+//@   ensures varint8: isvarint8(ret, m)
+
+// Parameters with an empty or a raw byte-string value.
+
+//@ func (*DisableActiveMigration).ID
+//@   property C24
+//@   pure
+//@   ensures id: ret == 0xc
+
+//@ func (*DisableActiveMigration).Value
+//@   property C24
+//@   modifies nothing
+//@   ensures empty: len(ret) == 0
+
+//@ func (*GREASEQUICBit).ID
+//@   property C24
+//@   pure
+//@   ensures id: ret == 0x2ab2
+
+//@ func (*GREASEQUICBit).Value
+//@   property C24
+//@   modifies nothing
+//@   ensures empty: len(ret) == 0
+
+//@ func InitialSourceConnectionID.ID
+//@   property C24
+//@   pure
+//@   ensures id: ret == 0xf
+
+//@ func InitialSourceConnectionID.Value
+//@   property C24
+//@   pure
+//@   ensures same: ret == i
+
+//@ func PaddingTransportParameter.ID
+//@   property C24
+//@   pure
+//@   ensures id: ret == 0x15
+
+//@ func PaddingTransportParameter.Value
+//@   property C24
+//@   pure
+//@   ensures same: ret == p
+
+//@ func (*VersionInformation).ID
+//@   property C24
+//@   requires v != nil
+//@   pure
+//@   ensures legacy: v.LegacyID ==> ret == 0xff73db
+//@   ensures rfc: !v.LegacyID ==> ret == 0x11
+
+//@ func (*FakeQUICTransportParameter).ID
+//@   property C24
+//@   requires f != nil
+//@   pure
+//@   panics when f.Id == 0
+//@   ensures id: ret == f.Id
+
+//@ func (*FakeQUICTransportParameter).Value
+//@   property C24
+//@   requires f != nil
+//@   pure
+//@   ensures same: ret == f.Val
+
+//@ func (*GREASETransportParameter).Value
+//@   property C24
+//@   requires g != nil
+//@   modifies g.ValueOverride
+//@   ensures stored: ret == g.ValueOverride
+//@   ensures keep: len(old(g.ValueOverride)) > 0 ==> ret == old(g.ValueOverride) && unchanged(ret)
+//@   ensures random: len(old(g.ValueOverride)) == 0 ==> fresh(ret) && len(ret) == g.Length
+
+//@ spec be32(b, o, x) = b[o] == x / 16777216 && b[o+1] == (x / 65536) % 256 && b[o+2] == (x / 256) % 256 && b[o+3] == x % 256
+
+//@ func (*VersionInformation).Value
+//@   property C24 C04
+//@   let n = len(v.AvailableVersions)
+//@   requires v != nil
+//@   modifies nothing
+//@   ensures len: len(ret) == 4 + 4*n
+//@   ensures chosen: be32(ret, 0, v.ChoosenVersion)
+//@   ensures others: forall j in 0..n: v.AvailableVersions[j] != 0x0a0a0a0a ==> be32(ret, 4+4*j, v.AvailableVersions[j])
+//@   ensures grease_via_GetGREASEVersion: forall j in 0..n: v.AvailableVersions[j] == 0x0a0a0a0a ==> ret[4+4*j] % 16 == 10 && ret[5+4*j] % 16 == 10 && ret[6+4*j] % 16 == 10 && ret[7+4*j] % 16 == 10
+//@   note grease_via_GetGREASEVersion rests on the refuted clause C04_VIOLATED_version_nibbles of GetGREASEVersion (modular reasoning assumes the callee's contract)
+//@   loop 0 invariant -1 <= $rangeindex && $rangeindex < n
+//@   loop 0 invariant len(b) == 4 + 4*$k && fresh(b)
+//@   loop 0 invariant be32(b, 0, v.ChoosenVersion)
+//@   loop 0 invariant forall j in 0..$k: v.AvailableVersions[j] != 0x0a0a0a0a ==> be32(b, 4+4*j, v.AvailableVersions[j])
+//@   loop 0 invariant forall j in 0..$k: v.AvailableVersions[j] == 0x0a0a0a0a ==> b[4+4*j] % 16 == 10 && b[5+4*j] % 16 == 10 && b[6+4*j] % 16 == 10 && b[7+4*j] % 16 == 10
